@@ -358,14 +358,23 @@ class STAR:
         runoff_members = votelib.evaluate.core.get_n_best(
             agg_scores, runoff_size
         )
+        # Candidates tied at the runoff boundary all enter the runoff.
+        members = []
+        for member in runoff_members:
+            tied = member if isinstance(
+                member, votelib.evaluate.core.Tie
+            ) else [member]
+            members.extend(cand for cand in tied if cand not in members)
+        if len(members) <= 1:
+            return members[:n_seats]
         # Convert scores to pairwise wins for the runoff.
+        all_pairwins = self._runoff_tocond_conv.convert(
+            self._runoff_torank_conv.convert(votes)
+        )
+        # Every ordered pair of runoff members, including pairs nobody ranked.
         pairwin_votes = {
-            pair: n_votes
-            for pair, n_votes in self._runoff_tocond_conv.convert(
-                self._runoff_torank_conv.convert(votes)
-            ).items()
-            # Only preferences for runoff members.
-            if all(cand in runoff_members for cand in pair)
+            (cand1, cand2): all_pairwins.get((cand1, cand2), 0)
+            for cand1 in members for cand2 in members if cand1 != cand2
         }
         return self.runoff_evaluator.evaluate(pairwin_votes, n_seats)
 
